@@ -118,6 +118,69 @@ def check_scan(ctx, repo, cname, fname):
     return fi
 
 
+STRUCTS = ("GeckoStructure", "GeckoAsyncStructure")
+SOURCES = {"all_devices": "all_device_keys", "user_demands": "user_demand_keys"}
+
+
+def _order_preserving_view(e, src_attr):
+    """True: e is the table's list itself or an order-preserving copy; False: an order-destroying
+    construct is present; None: neither recognised"""
+    for c in ast.walk(e):
+        if isinstance(c, ast.Call) and isinstance(c.func, ast.Name) and c.func.id in UNORDERED:
+            return False
+        if isinstance(c, ast.Call) and isinstance(c.func, ast.Attribute) and c.func.attr in ("shuffle", "sample"):
+            return False
+        if isinstance(c, (ast.Set, ast.SetComp)):
+            return False
+        if isinstance(c, ast.Subscript) and isinstance(c.slice, ast.Slice) and c.slice.step is not None and ast.unparse(c.slice.step) != "1":
+            return False
+    def is_src(x):
+        return isinstance(x, ast.Attribute) and x.attr == src_attr
+    if is_src(e):
+        return True
+    if isinstance(e, ast.Call) and isinstance(e.func, ast.Name) and e.func.id in ("list", "tuple") and len(e.args) == 1 and is_src(e.args[0]):
+        return True
+    if isinstance(e, ast.Call) and isinstance(e.func, ast.Attribute) and e.func.attr == "copy" and is_src(e.func.value) and not e.args:
+        return True
+    if isinstance(e, ast.Subscript) and is_src(e.value) and isinstance(e.slice, ast.Slice) and e.slice.lower is None and e.slice.upper is None:
+        return True
+    if isinstance(e, ast.ListComp) and len(e.generators) == 1 and is_src(e.generators[0].iter) and ast.unparse(e.elt) == ast.unparse(e.generators[0].target):
+        return True
+    return None
+
+
+def check_table_order_source(ctx, repo):
+    """R1 (source end): the lists the scans iterate - struct.all_devices / struct.user_demands - are the
+    log table's own key lists in the table's order, in both structure classes"""
+    n_sites = 0
+    for cname in STRUCTS:
+        cls = repo.cls(cname, required=False)
+        if cls is None:
+            ctx.error(f"structure class {cname} vanished")
+            continue
+        for m in cls.methods.values():
+            for n in walk_no_nested(m.node):
+                if isinstance(n, (ast.Assign, ast.AnnAssign)):
+                    tgs = n.targets if isinstance(n, ast.Assign) else [n.target]
+                    for t in tgs:
+                        if isinstance(t, ast.Attribute) and t.attr in SOURCES and isinstance(t.value, ast.Name) and t.value.id == "self" and n.value is not None:
+                            v = n.value
+                            if isinstance(v, (ast.List, ast.Tuple)) and not v.elts:
+                                continue
+                            n_sites += 1
+                            r = _order_preserving_view(v, SOURCES[t.attr])
+                            if r is None:
+                                ctx.error(f"{m.qual}: `self.{t.attr} = {ast.unparse(v)}` is not a recognised view of the log table's {SOURCES[t.attr]} - idiom not supported by C12.R1")
+                                continue
+                            ctx.ob("R1", f"{m.qual}::{t.attr}::table-order", r,
+                                   f"{m.qual}: `self.{t.attr} = {ast.unparse(v)}` reorders the log table's {SOURCES[t.attr]}; the facade lists devices in the order of this list, so the inventory is no longer in table order",
+                                   loc(m, n), sample={"rule": "R1", "site": m.qual, "attr": t.attr, "value": ast.unparse(v)})
+                # in-place reordering
+                if isinstance(n, ast.Call) and isinstance(n.func, ast.Attribute) and n.func.attr in ("sort", "reverse") and isinstance(n.func.value, ast.Attribute) and n.func.value.attr in SOURCES:
+                    ctx.ob("R1", f"{m.qual}::{n.func.value.attr}::table-order", False, f"{m.qual}: in-place {n.func.attr}() of {ast.unparse(n.func.value)}", loc(m, n))
+    ctx.floor("R1", "struct.all_devices/user_demands definition sites", n_sites, 4)
+
+
 def check(ctx):
     repo = Repo()
     T = tables(repo)
@@ -130,6 +193,7 @@ def check(ctx):
     scans = []
     for cname, fname in SCANS:
         scans.append(check_scan(ctx, repo, cname, fname))
+    check_table_order_source(ctx, repo)
     # R2
     if all(scans):
         from ..src import alpha_text
